@@ -62,6 +62,7 @@ def patch_spec(case):
     spec["tdgl.solver.solver"].update(datetime=fakeh5.FakeDatetime, os=fos)
     spec["tdgl.solution.solution"].update(h5py=h5, os=fos, datetime=fakeh5.FakeDatetime)
     spec["tdgl.solution.data"].update(h5py=h5)
+    spec.setdefault("tdgl.device.device", {}).update(h5py=h5, os=fos)
     return spec
 
 
